@@ -301,3 +301,39 @@ theorem rstep_modes (beh : Behaviour) (s : TermState) (vt : VT) (hA : AgreeRend 
       | _ => simp [Op.positionFree] at hp
 
 end Tpp
+
+namespace Tpp
+
+/-- a plain operation list run through `RSys` is `run` on the library side and `feedAll` on the terminal side -/
+theorem RSys.run_ops (beh : Behaviour) (ops : List Op) : ∀ (s : TermState) (vt : VT),
+    RSys.run beh (s, vt) (ops.map REv.op) = ((Tpp.run beh s ops).1, vt.feedAll (Tpp.run beh s ops).2) := by
+  induction ops with
+  | nil => intro s vt; rfl
+  | cons op ops ih =>
+    intro s vt
+    simp only [List.map_cons, RSys.run, List.foldl_cons] at ih ⊢
+    rw [show RSys.step beh (s, vt) (REv.op op) = ((Tpp.step beh s op).1, vt.feedAll (Tpp.step beh s op).2) from rfl, ih]
+    simp only [Tpp.run, VT.feedAll_append]
+
+/-- operations whose rendition-only domain condition does not depend on the library state -/
+def Op.WFR0 : Op → Prop
+  | .writeElement e => e.wf = true
+  | .writeString es => ∀ e ∈ es, e.wf = true
+  | .rawElement _ => False
+  | .moveCursor p => 0 ≤ p.x ∧ 0 ≤ p.y
+  | .setTitle t => titleClean t = true
+  | .rawWrite _ => False
+  | _ => True
+
+theorem wfr_of_wfr0 (s : TermState) (op : Op) (h : op.WFR0) : op.WFR s := by
+  cases op <;> simp_all [Op.WFR0, Op.WFR]
+
+theorem rrunwf_of_all (beh : Behaviour) (ops : List Op) (h : ∀ op ∈ ops, op.WFR0) :
+    ∀ st : TermState × VT, RRunWF beh st (ops.map REv.op) := by
+  induction ops with
+  | nil => intro st; trivial
+  | cons op ops ih =>
+    intro st
+    exact ⟨wfr_of_wfr0 st.1 op (h op (by simp)), ih (fun o ho => h o (by simp [ho])) _⟩
+
+end Tpp
